@@ -731,8 +731,7 @@ class Parser:
         if isinstance(expr, FunctionExtension):
             func = self.env.function_extensions.get(expr.name)
             if (
-                func
-                and isinstance(func, FilterFunction)
+                isinstance(func, FilterFunction)
                 and func.return_type == ExpressionType.VALUE
             ):
                 raise JSONPathTypeError(
